@@ -32,6 +32,9 @@ type stressTracer struct {
 	*am.TracerNoOp
 	mu  sync.Mutex
 	evs []tev
+	// onStart, when set, runs inside the TransitionStart callback (the machine is handing the
+	// callback out to its tracers)
+	onStart func()
 }
 
 func tstr(t am.Time) string {
@@ -49,7 +52,12 @@ func (t *stressTracer) add(kind string, tx *am.Transition) {
 	t.mu.Unlock()
 }
 func (t *stressTracer) TransitionInit(tx *am.Transition)   { t.add("I", tx) }
-func (t *stressTracer) TransitionStart(tx *am.Transition)  { t.add("S", tx) }
+func (t *stressTracer) TransitionStart(tx *am.Transition) {
+	t.add("S", tx)
+	if t.onStart != nil {
+		t.onStart()
+	}
+}
 func (t *stressTracer) TransitionFinals(tx *am.Transition) { t.add("F", tx) }
 func (t *stressTracer) TransitionEnd(tx *am.Transition)    { t.add("E", tx) }
 
@@ -68,8 +76,31 @@ func TracerStress(seed int64, d time.Duration, outDir string) []FailRec {
 	if err := m.VerifyStates(names); err != nil {
 		return []FailRec{{Prop: "C14", Msg: "tracer stress setup: " + err.Error()}}
 	}
+	// tracers bound before the two that are compared, detached one by one from another goroutine
+	// while a callback is being handed out (what pkg/telemetry/dbg's tracer does when it gives up)
+	const nAux = 8
+	for i := 0; i < nAux; i++ {
+		m.BindTracer(&am.TracerNoOp{Id: fmt.Sprintf("verif-aux%d", i)})
+	}
 	t1 := &stressTracer{TracerNoOp: &am.TracerNoOp{Id: "verif-t1"}}
 	t2 := &stressTracer{TracerNoOp: &am.TracerNoOp{Id: "verif-t2"}}
+	var starts, detached atomic.Int32
+	t1.onStart = func() {
+		n := starts.Add(1)
+		if n%40 != 0 || detached.Load() >= nAux {
+			return
+		}
+		i := detached.Add(1) - 1
+		done := make(chan struct{})
+		go func() {
+			m.DetachTracer(fmt.Sprintf("verif-aux%d", i))
+			close(done)
+		}()
+		select {
+		case <-done:
+		case <-time.After(3 * time.Millisecond):
+		}
+	}
 	m.BindTracer(t1)
 	m.BindTracer(t2)
 	m.BindHandlers(&nestHandlers{m: m})
